@@ -315,8 +315,8 @@ def setup_tmp(eng):
     EXT = z3.Function('splitext_ext', z3.StringSort(), z3.StringSort())
     eng._EXT = EXT
 
-    osm = types.SimpleNamespace()
-    osp = types.SimpleNamespace()
+    osm = env.ModelNS()
+    osp = env.ModelNS()
 
     def splitext(s):
         s = force(s)
@@ -358,7 +358,7 @@ def setup_tmp(eng):
     osm.getpid = lambda: pos('getpid')
     eng.native_modules['os'] = osm
 
-    tf = types.SimpleNamespace()
+    tf = env.ModelNS()
 
     class TemporaryDirectory:
 
@@ -373,7 +373,7 @@ def setup_tmp(eng):
     TemporaryDirectory.__module__ = 'contracts.env'
     tf.TemporaryDirectory = TemporaryDirectory
     eng.native_modules['tempfile'] = tf
-    th = types.SimpleNamespace()
+    th = env.ModelNS()
     th.get_ident = lambda: pos('tid')
     eng.native_modules['threading'] = th
 
